@@ -30,7 +30,7 @@ use arc_swap::ArcSwap;
 use octseq::Octets;
 use tokio::io::{AsyncRead, AsyncWrite};
 use tokio::net::TcpListener;
-use tokio::sync::watch;
+use tokio::sync::{Notify, watch};
 use tokio::time::{MissedTickBehavior, interval, timeout};
 use tracing::{error, trace, trace_span, warn};
 
@@ -308,6 +308,12 @@ where
 
     /// [`ServerMetrics`] describing the status of the server.
     metrics: Arc<ServerMetrics>,
+
+    /// Signalled whenever a connection handler terminates.
+    ///
+    /// Lets the accept loop notice that the number of connections has fallen
+    /// below the limit again while it is not accepting new connections.
+    connection_closed: Arc<Notify>,
 }
 
 /// # Creation
@@ -355,6 +361,7 @@ where
             pre_connect_hook: None,
             metrics,
             connection_idx: AtomicUsize::new(0),
+            connection_closed: Arc::new(Notify::new()),
         }
     }
 
@@ -546,6 +553,12 @@ where
                         }
                     }
                 }
+
+                // While not accepting because the connection limit has been
+                // reached, wake up when a connection terminates so that the
+                // limit is checked again.
+                _ = self.connection_closed.notified(), if !self.accepting_connections() => {
+                }
             }
         }
     }
@@ -647,6 +660,7 @@ where
         let pre_connect_hook = self.pre_connect_hook;
         let new_connection_idx =
             self.connection_idx.fetch_add(1, Ordering::SeqCst);
+        let connection_closed = self.connection_closed.clone();
 
         trace!("Spawning new connection handler.");
         tokio::spawn(async move {
@@ -676,6 +690,7 @@ where
                 conn.run(conn_command_rx).await;
                 trace!("Connection handler terminated.");
             }
+            connection_closed.notify_one();
         });
     }
 
